@@ -12,7 +12,7 @@ import Ctrmml.Spec.SeqWf
 import Ctrmml.Proofs.CodecBreak
 import Ctrmml.Proofs.CodecWalkLoops
 import Ctrmml.Proofs.CodecTrack
-import Ctrmml.Proofs.SongChunk
+import Ctrmml.Proofs.SongFragment
 namespace Ctrmml.C03
 open Ctrmml Ctrmml.Mds Ctrmml.Seq Tables
 
@@ -337,7 +337,8 @@ whose expected tick string is defined, with `start` = the position the track tab
    between the two loop marks: the loop-back jump spans time. -/
 theorem C03_song_wellformed_partial (song : Song) (d : DataInfo) (vol : Option String) (pf : Timeline.Platform)
     (b : MdsFile.Built) (hpc : PlatformClean d) (hp : SongTop.PlainSong song)
-    (hb : MdsFile.construct song d vol = .ok b) (hlen : b.seq.length < 65536) (hR : SongTop.RoutinesOK song b) :
+    (hb : MdsFile.construct song d vol = .ok b) (hlen : b.seq.length < 65536) (hR : SongTop.RoutinesOK song b)
+    (hpa : SongTop.PlatAgree d.platform pf) :
     ∀ id root t, (id, root) ∈ song.tracks → id < 16 → Timeline.inDomain song root = true →
       SongSplit.segCount root ≤ 1 → SongTop.LoopDrumOK root → Timeline.expected song pf root = .ok t →
       ∃ base ts start, tracksOf b.seq = some (base, ts) ∧ ts.lookup id = some start ∧
@@ -349,18 +350,18 @@ theorem C03_song_wellformed_partial (song : Song) (d : DataInfo) (vol : Option S
           SeqWf.ticksBetweenLoops (run b.seq base 2 maxTicks fuel { pc := start }).1 ≠ some 0) := by
   intro id root t hmem hid hdom hcnt hloop hexp
   have hseg := SongTop.inDomain_segno hdom
-  obtain ⟨ts, stream, pre, htr, hlk, hpre, hres⟩ := SongTop.song_plays hpc hp hb hlen pf hmem hid hR hseg hcnt hloop hexp 0
+  obtain ⟨ts, stream, pre, htr, hlk, hpre, hres⟩ := SongTop.song_plays hpc hp hb hlen pf hmem hid (SongTop.platOK_of_agree hpa _ _) hR hseg hcnt hloop hexp 0
   refine ⟨_, ts, pre.length, htr, hlk, ⟨stream.length, ?_, hres.walks⟩, ?_, ?_⟩
   · have := hpre.length_le; simpa using this
   · intro mj maxTicks fuel
-    obtain ⟨ts', stream', pre', htr', hlk', _, hres'⟩ := SongTop.song_plays hpc hp hb hlen pf hmem hid hR hseg hcnt hloop hexp mj
+    obtain ⟨ts', stream', pre', htr', hlk', _, hres'⟩ := SongTop.song_plays hpc hp hb hlen pf hmem hid (SongTop.platOK_of_agree hpa _ _) hR hseg hcnt hloop hexp mj
     rw [htr] at htr'; injection htr' with htr'; injection htr' with _ htr'; subst htr'
     rw [hlk] at hlk'; injection hlk' with hlk'
     obtain ⟨X, Y, TA, TB, loops, s', hreach, hfin, _⟩ := hres'.plays
     rw [← hlk'] at hreach
     rcases run_stop_of_reach (maxTicks := maxTicks) hreach hfin fuel with h | h | h <;> simp [h]
   · intro maxTicks fuel hfinished
-    obtain ⟨ts', stream', pre', htr', hlk', _, hres'⟩ := SongTop.song_plays hpc hp hb hlen pf hmem hid hR hseg hcnt hloop hexp 2
+    obtain ⟨ts', stream', pre', htr', hlk', _, hres'⟩ := SongTop.song_plays hpc hp hb hlen pf hmem hid (SongTop.platOK_of_agree hpa _ _) hR hseg hcnt hloop hexp 2
     rw [htr] at htr'; injection htr' with htr'; injection htr' with _ htr'; subst htr'
     rw [hlk] at hlk'; injection hlk' with hlk'
     obtain ⟨X, Y, TA, TB, loops, s', hreach, hfin, hout, hX, hY, _, htime, hnX, hnY⟩ := hres'.plays
